@@ -32,3 +32,13 @@ add("C15", FE, "stateful property-based testing over tick schedules and ack faul
 add("C06", "exploration", "stateful property-based testing/fuzzing: field-targeted hostile packets (own raw writer), mutations of captured genuine packets and raw bytes injected into a live multi-connection session; no-unwind, memory-bound and bystander oracles",
     "Injections are aimed with knowledge of the live state (messages in reassembly, cursors, sent sequences) at either endpoint of a victim connection while a bystander connection carries checked traffic; any unwind (overflow checks on), any accounted memory outside [0,max], any disturbance of the bystander is a violation. Exploration: the domain is byte strings x session states.",
     SIMNOTE, "DESIGN.md 4/C06")
+
+add("C11", FE, "stateful property-based testing with per-(client, direction, channel) models, recipient sets in message headers, per-client fault schedules, a targeted stall fault and hostile injection",
+    "2-5 clients joining late and disconnecting at any time, send/broadcast/broadcast_except, one optional hostile client and one optional stalled stream; every obtained message must be registered for that client and channel; bounded liveness is demanded for every client and channel other than the misbehaving/stalled one.",
+    SIMNOTE, "DESIGN.md 4/C11")
+add("C12", "exploration", "model-based property-based testing over public-API call histories (reference model of connection status, first disconnect reason and the server event stream)",
+    "Histories of up to 400 API calls on a server and four client objects (remote-style and local) are compared call by call with a model that knows which operation may disconnect which object and predicts the exact server event sequence.",
+    NOTE_COMMON, "DESIGN.md 4/C12")
+add("C13", "exploration", "property-based testing with counter presets (hooks) at varint width boundaries and ack-list maximising receive patterns; composition with the netcode layer",
+    "Every packet the message layer emits under generated workloads (bursts of tiny messages, threshold-sized messages, slices, up to 64 widely spaced ack ranges, 8-byte ids/sequences) must be <= 1300 bytes and serialise; each one is carried through generate_payload_packet of a live netcode pair with sequences of every width and must yield a datagram <= 1400 bytes.",
+    SIMNOTE, "DESIGN.md 4/C13")
